@@ -136,7 +136,13 @@ static void collect_ufun(int id, const std::string& name, std::set<int>& seen, s
 // A traced value E that is y0 + h * sum_i w_i g(t0 + u_i h) for an uninterpreted g: read (u_i, w_i) off the trace by
 // evaluating E exactly at (t0,h,y0) = (0,1,0) with g the indicator of one node at a time.  Nothing is assumed about
 // the shape of E; that E *is* that linear form for every g, t0, h, y0 is proved in Coq against the printed term.
-static std::vector<std::pair<Rat, Rat>> rule_table(const Sym& E, const std::string& g, RatEnv env01) {
+struct Rule {
+  std::vector<std::pair<Rat, Rat>> tab;  // (node, weight), sorted by node
+  std::vector<int> arg_ids;              // DAG ids of the argument of every application of g below E
+  std::vector<Rat> arg_nodes;            // the node each of them evaluates to
+};
+static Rule rule_table(const Sym& E, const std::string& g, RatEnv env01) {
+  Rule R;
   std::set<int> seen;
   std::vector<int> apps;
   collect_ufun(node_of(E), g, seen, apps);
@@ -144,25 +150,49 @@ static std::vector<std::pair<Rat, Rat>> rule_table(const Sym& E, const std::stri
   RatUF zero = [](const std::string&, const std::vector<Rat>&) { return Rat{}; };
   for (int id : apps) {
     std::map<int, Rat> memo;
-    Rat u = reval(Store::get().nodes[id].args.at(0), env01, zero, memo);
+    const int arg = Store::get().nodes[id].args.at(0);
+    Rat u = reval(arg, env01, zero, memo);
+    R.arg_ids.push_back(arg);
+    R.arg_nodes.push_back(u);
     bool dup = false;
     for (auto& v : nodes) dup = dup || req(u, v);
     if (!dup) nodes.push_back(u);
   }
   std::sort(nodes.begin(), nodes.end(), [](Rat a, Rat b) { return rdouble(a) < rdouble(b); });
-  std::vector<std::pair<Rat, Rat>> tab;
   for (auto& u : nodes) {
     RatUF ind = [&u](const std::string&, const std::vector<Rat>& xs) { return req(xs.at(0), u) ? Rat{1, 1} : Rat{}; };
     std::map<int, Rat> memo;
     Rat w = reval(node_of(E), env01, ind, memo);
-    tab.push_back({u, w});
+    R.tab.push_back({u, w});
   }
-  return tab;
+  return R;
+}
+static bool same_table(const std::vector<std::pair<Rat, Rat>>& a, const std::vector<std::pair<Rat, Rat>>& b) {
+  if (a.size() != b.size()) return false;
+  for (size_t i = 0; i < a.size(); ++i)
+    if (!req(a[i].first, b[i].first) || !req(a[i].second, b[i].second)) return false;
+  return true;
 }
 static std::string table_def(const std::string& name, const std::vector<std::pair<Rat, Rat>>& tab) {
   std::string s = "Definition " + name + " : list (Q * Q) :=\n  [";
   for (size_t i = 0; i < tab.size(); ++i) s += std::string(i ? ";\n   " : "") + "(" + qstr(tab[i].first) + ", " + qstr(tab[i].second) + ")";
   return s + "]%Q.\n\n";
 }
-
+// the arguments of the applications of g (as traced terms) and the node each stands for: lets the Coq side rewrite
+// every g(arg) into g(a + u (b - a)) with one `field` call per application
+static void args_def(Trace& tr, const std::string& name, const std::vector<Sym>& params, const std::vector<Rule>& rules) {
+  std::vector<Sym> args;
+  std::vector<Rat> nodes;
+  std::set<int> seen;
+  for (auto& R : rules)
+    for (size_t i = 0; i < R.arg_ids.size(); ++i)
+      if (seen.insert(R.arg_ids[i]).second) {
+        args.push_back(from_node(R.arg_ids[i]));
+        nodes.push_back(R.arg_nodes[i]);
+      }
+  tr.def(name + "_args", params, args);
+  std::string s = "Definition " + name + "_argnodes : list Q :=\n  [";
+  for (size_t i = 0; i < nodes.size(); ++i) s += std::string(i ? "; " : "") + qstr(nodes[i]);
+  tr.raw(s + "]%Q.\n\n");
+}
 #endif
